@@ -4,7 +4,7 @@
    iterations of the parsing layers vegeta owns - is bounded by the size of the input, for every
    byte string and however often the parser is called. *)
 From Coq Require Import ZArith List Bool Arith.
-From V Require Import Base.Duration Base.Str Model.Flags Model.Targets Model.ResultCodec Model.DecoderFor Proofs.TotalityProofs.
+From V Require Import Base.Duration Base.Str Model.Flags Model.Targets Model.ResultCodec Model.DecoderFor Proofs.TotalityProofs Proofs.FuelProofs.
 Import ListNotations.
 
 (* HTTP target format: a call never grows what is left to scan, and a returned target consumed a line *)
@@ -18,6 +18,14 @@ Theorem http_targeter_total : forall fixed fs db dh n src,
   (count_ok (http_calls fixed fs db dh n (psc_of src)) <= length (scan_lines src))%nat.
 Proof. exact http_calls_bound_src. Qed.
 Print Assumptions http_targeter_total.
+
+(* ... and the fuel the model gives its three loops is never exhausted: with any larger fuel every
+   call returns the same result, for every input - no loop of the parser runs without consuming a line *)
+Theorem http_fuel_suffices : forall fixed fs db dh s f1 f2 f3,
+  (S (S (length (rest s))) <= f1)%nat -> (S (length (rest s)) <= f2)%nat -> (S (S (length (rest s))) <= f3)%nat ->
+  http_next_f f1 f2 f3 fixed fs db dh s = http_next fixed fs db dh s.
+Proof. exact http_fuel_suffices_lemma. Qed.
+Print Assumptions http_fuel_suffices.
 
 (* JSON target format *)
 Theorem json_targeter_total : forall db dh n ls, (count_ok (json_calls db dh n ls) <= length ls)%nat.
